@@ -107,3 +107,33 @@ def run(ctx):
                 ctx.violation(f"table entry of subset {mask:#b} differs from the exact oracle", r,
                               expected={"loops": loops, "mms": sp, "omega": float(om)},
                               observed={"loops": ea[0], "mms": ea[1], "omega": b2f(ea[3])}); break
+
+    # ---------------- (iii) the public getters of a sampler built through Graph::build_sampler (whatever signature is supplied:
+    # build_sampler does not look at its shape, and the getters describe the GRAPH)
+    from .. import kin
+    acc = [(c, a) for c, a in zip(cases, impl) if a.get("status") == "ok" and c.get("accepted")][: (25 if ctx.quick else 150)]
+    breqs, binfo = [], []
+    for c, a in acc:
+        n = len(c["edges"])
+        Sg, _ = kin.fundamental_signature(rng, c["edges"])
+        L = len(Sg[0]) if Sg else 0
+        for variant, sig in (("fundamental", Sg), ("extra_row", Sg + [[0] * L]), ("missing_row", Sg[:-1]), ("empty", [])):
+            breqs.append(dict(graphs.request(c), op="build", sig=sig)); binfo.append((c, a, variant))
+    for r, b, (c, a, variant) in zip(breqs, run_harness(breqs), binfo):
+        n = len(c["edges"])
+        ctx.case(["getters", r["edges"], r["ext"], r["D"], variant], nontrivial=True); ctx.count(f"getters.{variant}")
+        if b.get("status") != "ok":
+            ctx.violation(f"build_sampler fails ({b.get('status')}) for an accepted graph with a {variant} signature: {str(b.get('msg'))[:100]}", r, observed=b); continue
+        exp_dim = 2 * n - 1 + c["D"] * c["loops"] + (c["D"] * c["loops"]) % 2
+        problems = []
+        if b["numEdges"] != n:
+            problems.append(f"get_num_edges() = {b['numEdges']}, the graph has {n} edges")
+        if b["weights"] != [f2b(w) for w in c["weights"]]:
+            problems.append("iter_edge_weights() differs from the input weights")
+        if b["dod"] != a["dod"]:
+            problems.append(f"get_dod() = {b2f(b['dod'])!r} differs from the table's overall degree of divergence {b2f(a['dod'])!r}")
+        if b["dimension"] != exp_dim:
+            problems.append(f"get_dimension() = {b['dimension']}, expected 2E-1+DL+(DL mod 2) = {exp_dim}")
+        if problems:
+            ctx.violation("public getters disagree with the input graph (signature variant %s): %s" % (variant, "; ".join(problems)), r, observed=problems)
+
